@@ -428,7 +428,7 @@ func (m *Manager) clearEarlierSetUserWildCardLimits(newUserWildCardLimits map[st
 		_, newQPExists := newUserLimits[queuePath]
 
 		// Does queue path exist? In case wild limit does not exist, reset limit settings and useWildCard flag for all those users
-		if newLimitConfig, ok := newUserWildCardLimits[queuePath]; !ok && (!currentQPExists || !newQPExists) {
+		if newLimitConfig, ok := newUserWildCardLimits[queuePath]; !ok {
 			for _, ut := range m.userTrackers {
 				_, exists := m.userLimits[queuePath][ut.userName]
 				if _, ok = newUserLimits[queuePath][ut.userName]; !ok || !exists {
